@@ -9,6 +9,9 @@ case = {"iw": w, "apps": [app per stream], "ops": [op ...]}
       | ["producer", chunk, n]           IPushProducer registered on the request: writes chunks while not paused,
                                          unregisters and finishes after the n-th
       | ["pre", preamble, mode, chunk, n]   writes `preamble` bytes directly, THEN registers a producer for n chunks;
+                                         mode "lazy" = push producer that looks whether it was paused BEFORE finishing:
+                                         when its last write paused it, it calls request.finish() only from the next
+                                         resumeProducing(), without writing;
                                          mode "push" (IPushProducer, started unless it was paused during registration)
                                          or "pull" (IPullProducer: H2Stream wraps it in _PullToPush / cooperate();
                                          the global Cooperator is replaced by one that ticks on the harness reactor;
@@ -16,6 +19,9 @@ case = {"iw": w, "apps": [app per stream], "ops": [op ...]}
   "late": L  (optional) the last L applications are not requested at setup; op ["req"] sends the next such request
   op  = ["adv"] one pending reactor call (one _sendPrioritisedData iteration) | ["wu", k, inc] | ["iw", v] | ["mf", v]
       | ["write", k] | ["finish", k] | ["req"]     k = 0: connection window, k >= 1: the k-th stream (id 2k-1)
+      | ["tpause"] | ["tresume"]   the transport calls pauseProducing() / resumeProducing() on the connection
+                    (back-pressure; a tpause while paused is skipped: a second pauseProducing would replace
+                    _consumerBlocked and drop what waits behind it)
       | ["drain"]   run pending reactor calls until the loop parks or nothing was sent for 12 consecutive calls (at
                     most 300); the observation then also reports, per open stream, bytes written by the application,
                     bytes received and whether it was finished ("~k:w/r[f]"), and the oracle requires that NOTHING
@@ -135,15 +141,17 @@ def _impl(case) -> str:
         request.write(bytes(_byte(k - 1, pos + j) for j in range(ln)))
 
     class Prod:
-        def __init__(self, k, request, chunk, count):
+        def __init__(self, k, request, chunk, count, lazy=False):
             self.k, self.request, self.chunk, self.count = k, request, chunk, count
-            self.sent, self.paused, self.done = 0, False, False
+            self.sent, self.paused, self.done, self.lazy = 0, False, False, lazy
 
         def run(self):
             self.paused = False
             while not self.paused and self.sent < self.count:
                 self.sent += 1
                 emit(self.k, self.request, self.chunk)
+            if self.lazy and self.paused:
+                return
             if self.sent == self.count and not self.done:
                 self.done = True
                 self.request.unregisterProducer()
@@ -204,8 +212,8 @@ def _impl(case) -> str:
                 _, pre, mode, chunk, count = app
                 if pre:
                     emit(k, request, pre)
-                if mode == "push":
-                    p = prods[k] = Prod(k, request, chunk, count)
+                if mode in ("push", "lazy"):
+                    p = prods[k] = Prod(k, request, chunk, count, lazy=(mode == "lazy"))
                     request.registerProducer(p, True)
                     if not p.paused:
                         p.run()
@@ -249,7 +257,15 @@ def _impl(case) -> str:
                 return
             if back:
                 try:
-                    evs = cl.receive_data(back)
+                    # one frame per receive_data call: the h2 client applies an acknowledged MAX_FRAME_SIZE only
+                    # after the call that carried the ACK, and would reject a larger DATA frame coalesced with it
+                    evs = []
+                    while len(back) >= 9:
+                        ln = int.from_bytes(back[:3], "big")
+                        evs += cl.receive_data(back[:9 + ln])
+                        back = back[9 + ln:]
+                    if back:
+                        evs += cl.receive_data(back)
                 except h2.exceptions.FlowControlError:
                     violations.append("client-FlowControlError")
                     return
@@ -288,6 +304,7 @@ def _impl(case) -> str:
     pump()
     out = [obs()]
     dead = None
+    tpaused = [False]
     for op in case["ops"]:
         del frames[:]
         del pev[:]
@@ -323,6 +340,14 @@ def _impl(case) -> str:
             elif op[0] == "req":
                 if late:
                     request(late.pop(0))
+            elif op[0] == "tpause":
+                if not tpaused[0]:
+                    tpaused[0] = True
+                    conn.pauseProducing()
+            elif op[0] == "tresume":
+                if tpaused[0]:
+                    tpaused[0] = False
+                    conn.resumeProducing()
             elif op[0] == "drain":
                 quiet = 0
                 for _ in range(300):
@@ -342,7 +367,7 @@ def _impl(case) -> str:
             dead = dead or "X:FlowControlError"
             frames.append("X:FlowControlError")
             pump()
-        if op[0] == "drain":
+        if op[0] == "drain" and not tpaused[0]:
             rep = ",".join(f"{k}:{written[k]}/{len(got.get(k, b''))}" + ("f" if k in finished else "")
                            for k in sorted(win.opened) if k not in ended)
             out.append(obs() + "~" + rep)
@@ -354,6 +379,10 @@ def _impl(case) -> str:
     try:
         if violations:
             raise h2.exceptions.FlowControlError()
+        if tpaused[0]:
+            tpaused[0] = False
+            conn.resumeProducing()
+            pump()
         need = {}
         for k in range(1, n + 1):
             if k in ended or k not in win.opened:
@@ -426,7 +455,7 @@ def oracle(case, obs):
             neg_seen = True
         st, _, report = st.partition("~")
         fr = st.partition("/")[0]
-        if op[0] == "drain" and "X:" not in st and "client-FlowControlError" not in tail:
+        if op[0] == "drain" and report and "X:" not in st and "client-FlowControlError" not in tail:
             pending_check = report
         else:
             pending_check = None
@@ -718,6 +747,87 @@ def _gen_negative_neighbour(rng):
     return c
 
 
+def _gen_exact_total_producer(rng):
+    """a push producer whose writes add up EXACTLY to the stream window and that finishes from inside the next
+    resumeProducing without writing; the data is sent completely (queue empty, loop parked), then a stream-level
+    WINDOW_UPDATE arrives"""
+    m = rng.choice([1, 2, 4, 5])
+    chunk = rng.choice([1, 10, 25, 250])
+    w = m * chunk
+    pre = 0
+    if rng.random() < 0.3:
+        pre = rng.choice([chunk, 2 * chunk])
+        w += pre
+    total_ok = rng.random() < 0.8
+    apps = [["pre", pre, rng.choice(["lazy", "lazy", "push"]), chunk, m if total_ok else m + rng.choice([-1, 1])]]
+    apps[0][4] = max(1, apps[0][4])
+    ops, late = [], 0
+    if rng.random() < 0.4:
+        apps.insert(0, ["static", [rng.randrange(1, 30)]])
+    if rng.random() < 0.5:
+        late = 1
+        ops += [["adv"]] * rng.randrange(0, 4) + [["req"]]
+    k = len(apps)
+    ops += [["drain"]] if rng.random() < 0.7 else [["adv"]] * rng.randrange(0, m + 4)
+    for _ in range(rng.randrange(1, 5)):
+        ops.append(["wu", rng.choice([k, k, 0]), rng.choice([1, chunk, w, 65535])])
+        ops += [["adv"]] * rng.randrange(0, 3)
+        if rng.random() < 0.3:
+            ops.append(["drain"])
+    c = {"iw": w, "apps": apps, "ops": ops}
+    if late:
+        c["late"] = late
+    return c
+
+
+def _gen_backpressure_wakeup(rng):
+    """the sender is parked with data (or END_STREAM) queued behind an exhausted window; the transport pauses the
+    connection; the window is reopened during the pause (WINDOW_UPDATE on either level or SETTINGS); the transport
+    resumes; at the next quiescent point the data must be out"""
+    w = rng.choice([5, 10, 100, 1000])
+    extra = [rng.randrange(1, 2 * w) for _ in range(rng.randrange(1, 3))]
+    apps = [["manual", [w] + extra]]
+    if rng.random() < 0.3:
+        apps.append(["static", [rng.randrange(1, w + 1)]])
+    ops = [["write", 1], ["drain"]]
+    ops += [["write", 1]] * rng.randrange(1, len(extra) + 1)
+    if rng.random() < 0.4:
+        ops.append(["finish", 1])
+    if rng.random() < 0.5:
+        ops.append(["drain"])
+    ops.append(["tpause"])
+    ops += [["adv"]] * rng.randrange(0, 3)
+    for _ in range(rng.randrange(1, 3)):
+        ops.append(rng.choice([["wu", 1, rng.choice([1, w, 10 * w])], ["wu", 1, 10 * w], ["iw", w + rng.choice([1, 3 * w])],
+                               ["wu", 0, 65535]]))
+        ops += [["adv"]] * rng.randrange(0, 2)
+    ops.append(["tresume"])
+    ops += [["adv"]] * rng.randrange(0, 3)
+    ops.append(["drain"])
+    return {"iw": w, "apps": apps, "ops": ops}
+
+
+def _with_backpressure(rng, case):
+    """interleave transport pause / resume with the history"""
+    if rng.random() < 0.3:
+        ops, paused = [], False
+        for o in case["ops"]:
+            r = rng.random()
+            if not paused and r < 0.12:
+                ops.append(["tpause"])
+                paused = True
+            elif paused and r < 0.3:
+                ops.append(["tresume"])
+                paused = False
+                if rng.random() < 0.5:
+                    ops.append(["drain"])
+            ops.append(o)
+        if paused and rng.random() < 0.8:
+            ops += [["tresume"], ["drain"]]
+        case = {**case, "ops": ops}
+    return case
+
+
 def _with_drains(rng, case):
     """sprinkle intermediate quiescent points into any history"""
     if rng.random() < 0.5:
@@ -741,7 +851,7 @@ def search(rng):
 
 
 def gen(rng, tier):
-    return [_with_drains(rng, c) for c in _gen(rng, tier)]
+    return [_with_backpressure(rng, _with_drains(rng, c)) for c in _gen(rng, tier)]
 
 
 def _gen(rng, tier):
@@ -749,6 +859,10 @@ def _gen(rng, tier):
     q = tier == "quick"
     for _ in range(150 if q else 3000):
         cases.append(_gen_negative_neighbour(rng))
+    for _ in range(120 if q else 3000):
+        cases.append(_gen_exact_total_producer(rng))
+    for _ in range(80 if q else 2000):
+        cases.append(_gen_backpressure_wakeup(rng))
     for _ in range(250 if q else 5000):
         cases.append(_gen_preamble_producer(rng))
     for _ in range(200 if q else 5000):
@@ -800,6 +914,14 @@ def corpus():
         # a small response delivered first, then a producer that fills what is left of the connection window
         {"iw": 1 << 24, "apps": [["static", [535]], ["producer", 6500, 20]], "late": 1,
          "ops": [["adv"], ["adv"], ["req"]] + [["adv"]] * 12 + [["wu", 0, 65535]] + [["adv"]] * 4},
+        # a producer whose writes add up exactly to the window, sent completely, loop parked; the stream-level
+        # WINDOW_UPDATE makes it finish from inside resumeProducing without writing
+        {"iw": 100, "apps": [["pre", 0, "lazy", 25, 4]], "ops": [["drain"], ["wu", 1, 50], ["drain"]]},
+        # the transport pauses the connection, a WINDOW_UPDATE arrives during the pause, the transport resumes
+        {"iw": 10, "apps": [["manual", [10, 5]]],
+         "ops": [["write", 1], ["drain"], ["write", 1], ["tpause"], ["wu", 1, 20], ["tresume"], ["drain"]]},
+        {"iw": 100, "apps": [["static", [300]]],
+         "ops": [["adv"], ["tpause"], ["adv"], ["wu", 1, 500], ["adv"], ["tresume"], ["drain"]]},
         # two streams; SETTINGS leaves stream 1 negative with data queued; stream 3 has open windows and 50000 bytes:
         # at the intermediate quiescent point stream 3 must have been sent up to its window
         {"iw": 30000, "apps": [["static", [40000]], ["static", [50000]]], "late": 1,
@@ -825,6 +947,10 @@ def to_coq(case):
             return f"AppWrite {2 * o[1] - 1}%nat"
         if o[0] == "drain":
             return "Drain"
+        if o[0] == "tpause":
+            return "TPause"
+        if o[0] == "tresume":
+            return "TResume"
         if o[0] == "req":
             if not late:
                 return "AppWrite 99999%nat"      # nothing left to request: no-op
@@ -839,7 +965,7 @@ def to_coq(case):
         if a[0] == "producer":
             return f"Producer ({a[1]})%Z {a[2]}%nat"
         if a[0] == "pre":
-            return f"PreProducer ({a[1]})%Z ({a[3]})%Z {a[4]}%nat"
+            return f"{'LazyProducer' if a[2] == 'lazy' else 'PreProducer'} ({a[1]})%Z ({a[3]})%Z {a[4]}%nat"
         return ("Static " if a[0] == "static" else "Manual ") + coq_list([f"({x})%Z" for x in a[1]], "Z")
 
     n = len(_apps(case))
